@@ -87,12 +87,12 @@ Fixpoint take_key (s : string) : string * string :=
 Definition yaml_special : list string := ["true"; "false"; "yes"; "no"; "on"; "off"; "null"].
 Definition key_ok (k : string) : bool :=
   match k with String c _ => is_letter c && negb (smem (lower k) yaml_special) | EmptyString => false end.
-(* the inline value is opaque, but block scalars (whose blank/comment lines are content) are outside the subset *)
-Definition rest_ok (v : string) : bool :=
-  match lstrip v with String "|" _ => false | String ">" _ => false | _ => true end.
-(* `key:` or `key: value` *)
-Definition key_split (l : string) : option (string * string) :=
-  let '(k, r) := take_key l in
+(* the inline value is opaque.  (Block scalar openers `|` `>` are admitted since phase 3: the lines of a block scalar are part
+   of the entry's body like any other; what the model does NOT see is that blank / `#` lines and trailing spaces inside a block
+   scalar are content - covered at the byte level by the raw-text theorem and validated against PyYAML.) *)
+Definition rest_ok (v : string) : bool := true.
+(* what follows the key: `:` at the end of the line, or `: value` *)
+Definition after_key (k r : string) : option (string * string) :=
   match r with
   | String c r1 =>
     if Ascii.eqb c ":" then
@@ -103,12 +103,29 @@ Definition key_split (l : string) : option (string * string) :=
     else None
   | EmptyString => None
   end.
+Definition is_quote (c : ascii) : bool := Ascii.eqb c """" || Ascii.eqb c "'".
+(* `key:`, `key: value`, `"key": value`, 'key': value  (key, inline value, was the key quoted) *)
+Definition key_split (l : string) : option (string * string * bool) :=
+  match l with
+  | String c r =>
+    if is_quote c then
+      let '(k, r1) := take_key r in
+      match r1 with
+      | String c2 r2 => if Ascii.eqb c2 c then option_map (fun kv => (kv, true)) (after_key k r2) else None
+      | EmptyString => None
+      end
+    else let '(k, r1) := take_key l in option_map (fun kv => (kv, false)) (after_key k r1)
+  | EmptyString => None
+  end.
 
 Definition entry := (string * string * list string)%type.   (* key, inline value, significant body lines *)
 Definition ekey (e : entry) : string := fst (fst e).
+(* a quoted key is a string whatever it spells (`"yes":`, `"007":`); a plain one must not be a YAML keyword or number *)
+Definition key_admissible (k : string) (quoted : bool) : bool :=
+  if quoted then match k with EmptyString => false | _ => true end else key_ok k.
 Definition parse_entry (g : string * list string) : option entry :=
   match key_split (fst g) with
-  | Some (k, v) => if key_ok k && rest_ok v then Some (k, v, snd g) else None
+  | Some (k, v, qd) => if key_admissible k qd && rest_ok v then Some (k, v, snd g) else None
   | None => None
   end.
 Fixpoint parse_entries (gs : list (string * list string)) : option (list entry) :=
@@ -151,16 +168,16 @@ Definition flow_keys (l : string) : option (list string) :=
 (* ------------------------------------------------------------------ the YAML subset *)
 Inductive root :=
 | RBlock (es : list entry)     (* block mapping (possibly empty: only comments) *)
-| RFlow (keys : list string)   (* one-line flow mapping *)
+| RFlow (keys : list string)   (* one-line flow mapping, or block mapping indented as a whole *)
 | ROther.                      (* not in the subset / not valid *)
 
 Definition docstart : string := "---".
 Definition strip_docstart (gs : list (string * list string)) : list (string * list string) :=
   match gs with (l, []) :: r => if String.eqb l docstart then r else gs | _ => gs end.
 
-Definition analyse (E : list string) : root :=
-  if negb (forallb line_clean E) then ROther else
-  let '(gs, orph) := group (sig_lines E) in
+(* a block document on its significant lines *)
+Definition analyse_sig (S : list string) : root :=
+  let '(gs, orph) := group S in
   match orph with
   | _ :: _ => ROther
   | [] =>
@@ -174,6 +191,36 @@ Definition analyse (E : list string) : root :=
         end
       else match parse_entries ((l, b) :: r) with Some es => RBlock es | None => ROther end
     end
+  end.
+
+(* a block mapping indented as a whole (valid YAML; the root's keys stand at column n > 0): the significant lines after the
+   optional `---`, with the common indentation removed - None when the first one is not indented or a line is indented less *)
+Fixpoint indent_of (l : string) : nat :=
+  match l with String c r => if Ascii.eqb c " " then S (indent_of r) else 0 | EmptyString => 0 end.
+Fixpoint drop_spaces (n : nat) (l : string) : option string :=
+  match n with
+  | 0 => Some l
+  | S k => match l with String c r => if Ascii.eqb c " " then drop_spaces k r else None | EmptyString => None end
+  end.
+Fixpoint dedent (n : nat) (ls : list string) : option (list string) :=
+  match ls with
+  | [] => Some []
+  | l :: r => match drop_spaces n l, dedent n r with Some l', Some r' => Some (l' :: r') | _, _ => None end
+  end.
+Definition indented (S : list string) : option (list string) :=
+  let S' := match S with l :: r => if String.eqb l docstart then r else S | [] => [] end in
+  match S' with
+  | l :: _ => if 0 <? indent_of l then dedent (indent_of l) S' else None
+  | [] => None
+  end.
+
+(* RFlow stands for every root that is a mapping but not a column-0 block mapping - flow style, or block style indented as a
+   whole: only its keys are analysed; column-0 block text cannot be appended to such a file *)
+Definition analyse (E : list string) : root :=
+  if negb (forallb line_clean E) then ROther else
+  match indented (sig_lines E) with
+  | Some D => match analyse_sig D with RBlock es => RFlow (map ekey es) | _ => ROther end
+  | None => analyse_sig (sig_lines E)
   end.
 
 Definition root_keys (r : root) : list string :=
